@@ -38,6 +38,7 @@ META = {
              'binding style (inner Meta class / LoadMeta-DumpMeta), CatchAll, probe kind (basic / Union-of-dataclasses field), nesting shape '
              '(12 fixed + random compositions up to depth 4 incl. intermediate classes with own Meta), earlier use of the nested class (none / dumped alone / '
              'loaded alone / under another root with no, opposite or same Meta, dumped or loaded), document type (dict / OrderedDict / defaultdict / subclass), '
+             'root Meta bound in one step / split in two with a use of the other engine in between, dump-side by-value shapes (list / Any / Dict[str, Any]), '
              'per engine (default load, dump, v1 load); '
              'thorough adds the full product shape x recursive on sampled rows. distinct = distinct configuration JSON; non-trivial = root has a '
              'Meta and at least one observed setting is set on root or nested.'),
@@ -726,8 +727,7 @@ def run(ctx):
 
     # ---- model: behaviour vector per distinct (engine, root, nested, history) ----
     def mkey(c):
-        return json.dumps([c['engine'], c['root'], c['nested'], c.get('history'), c.get('other'),
-                           (c.get('root_steps') or {}).get('part1'), by_value(c)], sort_keys=True)
+        return json.dumps([c['engine'], c['root'], c['nested'], uses_of_nested(c), by_value(c)], sort_keys=True)
     triples, index = [], {}
     for c in cfgs:
         k = mkey(c)
